@@ -1,0 +1,161 @@
+// SPDX-FileCopyrightText: 2026 The Pion community <https://pion.ly>
+// SPDX-License-Identifier: MIT
+
+//go:build verif && !js
+
+package webrtc
+
+import (
+	"errors"
+	"fmt"
+	"strconv"
+
+	"github.com/pion/sdp/v3"
+)
+
+// VerifRemoteSection describes one remote m-section for VerifMediaEngineUpdate (verification hook, C15).
+// Codecs[i].MimeType holds the rtpmap encoding name only ("VP8"); the media name is prepended by
+// codecsFromMediaDescription, as for every real remote description.
+type VerifRemoteSection struct {
+	Media  string
+	Codecs []RTPCodecParameters
+	// MissingRtpmap appends a format (payload type 127) that no rtpmap describes:
+	// codecsFromMediaDescription then fails.
+	MissingRtpmap bool
+}
+
+// VerifPayloadLookup is one successful getCodecByPayload result.
+type VerifPayloadLookup struct {
+	PayloadType PayloadType
+	Kind        RTPCodecType
+	Codec       RTPCodecParameters
+}
+
+// VerifMediaEngineState is what VerifMediaEngineUpdate reports.
+type VerifMediaEngineState struct {
+	// Errors has one entry per applied description: "ok", "apt" (strconv error on an apt value),
+	// "dup" (ErrCodecAlreadyRegistered from pushCodecs), "sdp" (anything else).
+	Errors []string
+	// Seen[d][s] is what codecsFromMediaDescription returns for section s of description d
+	// (nil when it fails); lets the caller confirm that the SDP it described is the SDP that was read.
+	Seen [][][]RTPCodecParameters
+
+	NegotiatedAudio, NegotiatedVideo             bool
+	NegotiatedAudioCodecs, NegotiatedVideoCodecs []RTPCodecParameters
+	AudioCodecsByKind, VideoCodecsByKind         []RTPCodecParameters
+	ByPayload                                    []VerifPayloadLookup
+}
+
+func verifMediaDescription(sec VerifRemoteSection) *sdp.MediaDescription {
+	media := &sdp.MediaDescription{
+		MediaName: sdp.MediaName{
+			Media:  sec.Media,
+			Port:   sdp.RangedPort{Value: 9},
+			Protos: []string{"UDP", "TLS", "RTP", "SAVPF"},
+		},
+	}
+	for _, c := range sec.Codecs {
+		media.WithCodec(uint8(c.PayloadType), c.MimeType, c.ClockRate, c.Channels, c.SDPFmtpLine)
+		for _, fb := range c.RTCPFeedback {
+			val := fmt.Sprintf("%d %s", c.PayloadType, fb.Type)
+			if fb.Parameter != "" {
+				val += " " + fb.Parameter
+			}
+			media.WithValueAttribute("rtcp-fb", val)
+		}
+	}
+	if sec.MissingRtpmap {
+		media.MediaName.Formats = append(media.MediaName.Formats, "127")
+	}
+
+	return media
+}
+
+// VerifMediaEngineUpdate registers the given codecs on a fresh MediaEngine (RegisterCodec, in order,
+// errors ignored), applies the described remote descriptions with updateFromRemoteDescription one
+// after the other and reports the negotiated state.
+func VerifMediaEngineUpdate(
+	audio, video []RTPCodecParameters, multiCodec bool, descriptions [][]VerifRemoteSection,
+) VerifMediaEngineState {
+	engine := &MediaEngine{}
+	for _, c := range audio {
+		_ = engine.RegisterCodec(c, RTPCodecTypeAudio)
+	}
+	for _, c := range video {
+		_ = engine.RegisterCodec(c, RTPCodecTypeVideo)
+	}
+	engine.setMultiCodecNegotiation(multiCodec)
+
+	var state VerifMediaEngineState
+	for _, sections := range descriptions {
+		desc := sdp.SessionDescription{}
+		seen := [][]RTPCodecParameters{}
+		for _, sec := range sections {
+			media := verifMediaDescription(sec)
+			desc.MediaDescriptions = append(desc.MediaDescriptions, media)
+			codecs, err := codecsFromMediaDescription(media)
+			if err != nil {
+				codecs = nil
+			} else if codecs == nil {
+				codecs = []RTPCodecParameters{}
+			}
+			seen = append(seen, codecs)
+		}
+		state.Seen = append(state.Seen, seen)
+
+		err := engine.updateFromRemoteDescription(desc)
+		var numErr *strconv.NumError
+		switch {
+		case err == nil:
+			state.Errors = append(state.Errors, "ok")
+		case errors.Is(err, ErrCodecAlreadyRegistered):
+			state.Errors = append(state.Errors, "dup")
+		case errors.As(err, &numErr):
+			state.Errors = append(state.Errors, "apt")
+		default:
+			state.Errors = append(state.Errors, "sdp")
+		}
+	}
+
+	engine.mu.RLock()
+	state.NegotiatedAudio, state.NegotiatedVideo = engine.negotiatedAudio, engine.negotiatedVideo
+	state.NegotiatedAudioCodecs = append([]RTPCodecParameters{}, engine.negotiatedAudioCodecs...)
+	state.NegotiatedVideoCodecs = append([]RTPCodecParameters{}, engine.negotiatedVideoCodecs...)
+	engine.mu.RUnlock()
+	state.AudioCodecsByKind = append([]RTPCodecParameters{}, engine.getCodecsByKind(RTPCodecTypeAudio)...)
+	state.VideoCodecsByKind = append([]RTPCodecParameters{}, engine.getCodecsByKind(RTPCodecTypeVideo)...)
+	for pt := 0; pt < 256; pt++ {
+		codec, kind, err := engine.getCodecByPayload(PayloadType(pt))
+		if err != nil {
+			continue
+		}
+		state.ByPayload = append(state.ByPayload, VerifPayloadLookup{PayloadType(pt), kind, codec})
+	}
+
+	return state
+}
+
+// VerifFilterUnattachedRTX runs filterUnattachedRTX on the caller's slice (in place, as the code does)
+// and returns the result; the caller can inspect its own slice afterwards (C10).
+func VerifFilterUnattachedRTX(codecs []RTPCodecParameters) []RTPCodecParameters {
+	return filterUnattachedRTX(codecs)
+}
+
+// VerifCodecFuzzySearch exposes codecParametersFuzzySearch: 0 none, 1 partial, 2 exact.
+func VerifCodecFuzzySearch(needle RTPCodecParameters, haystack []RTPCodecParameters) (RTPCodecParameters, int) {
+	c, mt := codecParametersFuzzySearch(needle, haystack)
+
+	return c, int(mt)
+}
+
+// VerifTransceiverGetCodecs runs RTPTransceiver.getCodecs for a video transceiver whose MediaEngine
+// holds exactly engineCodecs as registered video codecs and whose codec preferences are prefs.
+// It returns the result and the engine's own codec slice as it looks afterwards (C10, C16).
+func VerifTransceiverGetCodecs(engineCodecs, prefs []RTPCodecParameters) (result, engineAfter []RTPCodecParameters) {
+	engine := &MediaEngine{videoCodecs: append([]RTPCodecParameters{}, engineCodecs...)}
+	view := engine.videoCodecs
+	tr := &RTPTransceiver{kind: RTPCodecTypeVideo, api: &API{mediaEngine: engine}, codecs: prefs}
+	result = append([]RTPCodecParameters{}, tr.getCodecs()...)
+
+	return result, view
+}
